@@ -861,7 +861,7 @@ def _(E, m, a, c0):
     return _lex_cmp(E, [(ty, _sub(E, x, i), _sub(E, y, i)) for i in range(n)], len(xs), len(ys))
 
 # blanket impls `impl PartialEq<&B> for &A` etc.: forward through one reference level to the crate's impl
-@pattern(r'<&(?:mut )?(&*[A-Z][\w:]*(?:<.*>)?) as (PartialEq|PartialOrd|Ord)(?:<.*>)?>::(\w+)')
+@pattern(r'<&(?:mut )?(&*(?:[a-z_]\w*::)*[A-Z][\w:]*(?:<.*>)?) as (PartialEq|PartialOrd|Ord)(?:<.*>)?>::(\w+)')
 def _(E, m, a, c0):
     ty, trait, meth = m.groups()
     def one(x):
